@@ -21,38 +21,44 @@ class SVal:
     def __init__(self, p): self.p = p
 class Enc:
     def __init__(self, g): self.g = g
+class HState:
+    def __init__(self): self.inp = []
 
 class KSym(GSym):
     def __init__(self, mod):
         super().__init__(mod); self.max_steps = 50_000_000
         self.hashes = {}; self.hash_inputs = []; self.hbytes = []
         I = self.intercept
-        I.insert(0, (r'^<D as digest::digest::Digest>::update$', self.h_update))
-        I.insert(0, (r'^<D as digest::digest::Digest>::chain_update$', self.h_chain))
+        I.insert(0, (r'^<digest::core_api::wrapper::CoreWrapper<T> as digest::Update>::update$', self.h_update))
         I.insert(0, (r'^<D as digest::digest::Digest>::finalize$', self.h_finalize))
         I.insert(0, (r'^curve25519_dalek::scalar::Scalar::from_bytes_mod_order$', self.s_mod_order))
         I.insert(0, (r'^curve25519_dalek::edwards::EdwardsPoint::mul_base$', self.p_mul_base))
         I.insert(0, (r'^curve25519_dalek::edwards::EdwardsPoint::compress$', self.p_compress))
     def cells(self, p, n): return [self.regions[p.r].b.get(p.o + k) for k in range(n)]
+    # the running input of a hasher lives IN the hasher object (an HState cell at its first bytes), so that it moves with the object
+    # (chain_update / by-value passing are memcpys); updates are intercepted below the generic `impl AsRef<[u8]>` layer, where the data
+    # is always a (pointer, length) slice
+    def hstate(self, p, create=True):
+        R = self.regions[p.r]; e = R.b.get(p.o)
+        if e is not None and isinstance(e[0], HState): return e[0]
+        if not create: return None
+        hs = HState()
+        for k in range(8): R.b[p.o + k] = (hs, k, 8)
+        return hs
     def h_update(self, it, a, name):
-        n = self.P(a[2]).cval() if len(a) >= 3 else 32
-        self.hashes.setdefault(a[0].r + "+%d" % a[0].o, []).extend(self.cells(a[1], n)); return None
-    def h_chain(self, it, a, name):
-        # chain_update(self, data) -> Self : by value (sret out, self ptr, data...)
-        n = self.P(a[3]).cval() if len(a) >= 4 else 32
-        key = a[1].r + "+%d" % a[1].o
-        inp = self.hashes.pop(key, []) + self.cells(a[2], n)
-        self.memcpy(a[0], a[1], self.hasher_size(a))
-        self.hashes[a[0].r + "+%d" % a[0].o] = inp; return None
-    def hasher_size(self, a):
-        R = self.regions[a[1].r]
-        return max(R.b) + 1 - a[1].o if R.b else 0
+        n = self.P(a[2])
+        if not n.is_const(): raise Unsupported("hash update of symbolic length")
+        self.hstate(a[0]).inp.extend(self.cells(a[1], n.cval())); return None
     def h_finalize(self, it, a, name):
-        key = a[1].r + "+%d" % a[1].o
-        inp = self.hashes.pop(key, None)
-        if inp is None:
-            if len(self.hashes) != 1: raise Unsupported("finalize of an unknown hasher")
-            key, inp = self.hashes.popitem()
+        hs = self.hstate(a[1], create=False)
+        inp = hs.inp if hs is not None else []          # finalize of a hasher that was never updated: the hash of the empty string
+        # an uninterpreted FUNCTION: the same input (cell by cell) yields the same output bytes
+        def samecells(x, y): return len(x) == len(y) and all((c is not None and d is not None and (c[0] is d[0] and c[1] == d[1] or (isinstance(c[0], Poly) and isinstance(d[0], Poly) and c[0].t == d[0].t and c[1] == d[1]))) for c, d in zip(x, y))
+        for j, old in enumerate(self.hash_inputs):
+            if samecells(old, inp):
+                for k in range(64): self.store(Ptr(a[0].r, a[0].o + k), self.hbytes[j][k], 1)
+                self.repeated = getattr(self, "repeated", 0) + 1
+                return None
         i = len(self.hash_inputs); self.hash_inputs.append(inp)
         bs = [self.ctx.input("h%d_%d" % (i, k), 0, 255) for k in range(64)]; self.hbytes.append(bs)
         for k in range(64): self.store(Ptr(a[0].r, a[0].o + k), bs[k], 1)
